@@ -184,7 +184,11 @@ func keyRules(keys []map[string]interface{}) string {
 		if ps, ok := k["purposes"].([]interface{}); ok {
 			for _, p := range ps {
 				s, isStr := p.(string)
-				if isStr && !permitted(typ, s) {
+				if !isStr {
+					// a declared purpose that is not a string names no relationship the type could be permitted for
+					return fmt.Sprintf("key %q declares a purpose that is not a string (%v)", id, p)
+				}
+				if !permitted(typ, s) {
 					return fmt.Sprintf("key %q of type %q declares purpose %q for which that type is not permitted", id, typ, s)
 				}
 			}
@@ -220,10 +224,22 @@ func serviceRules(svcs []map[string]interface{}) string {
 			}
 		case []interface{}:
 			for i, e := range ep {
-				if u, ok := e.(string); ok && !validURI(u) {
-					return fmt.Sprintf("service %q endpoint[%d] %q is not a valid URI", id, i, u)
+				switch u := e.(type) {
+				case string:
+					if !validURI(u) {
+						return fmt.Sprintf("service %q endpoint[%d] %q is not a valid URI", id, i, u)
+					}
+				case map[string]interface{}:
+					// an endpoint object (a map of endpoint properties) is accepted on purpose by the library
+				default:
+					return fmt.Sprintf("service %q endpoint[%d] (%v) is neither a URI nor an endpoint object", id, i, e)
 				}
 			}
+		case map[string]interface{}:
+		case nil:
+			// a missing endpoint is refused by the library; the statement has no rule for it
+		default:
+			return fmt.Sprintf("service %q endpoint (%v) is neither a URI, a list of endpoints nor an endpoint object", id, ep)
 		}
 	}
 	return ""
@@ -436,7 +452,12 @@ func nearMissKey(t *rapid.T) map[string]interface{} {
 	case 4:
 		k["purposes"] = []interface{}{}
 	case 5:
-		k["purposes"] = []interface{}{"authentication", "bogusPurpose"}
+		k["purposes"] = rapid.SampledFrom([]interface{}{[]interface{}{"authentication", "bogusPurpose"},
+			// declared purposes that are not strings (a typed view of the list would skip them)
+			[]interface{}{"authentication", []interface{}{"keyAgreement"}}, []interface{}{float64(5)}, []interface{}{"authentication", nil}, []interface{}{map[string]interface{}{"p": "keyAgreement"}, "assertionMethod"}}).Draw(t, "oddPurposes")
+		if rapid.Bool().Draw(t, "verificationOnlyType") {
+			k["type"] = "Ed25519VerificationKey2018"
+		}
 	case 6:
 		k["type"] = "UnknownKeyType2099"
 	case 7:
@@ -493,7 +514,7 @@ func nearMissService(t *rapid.T) map[string]interface{} {
 	case 7:
 		delete(s, "type")
 	case 8:
-		s["serviceEndpoint"] = float64(5)
+		s["serviceEndpoint"] = rapid.SampledFrom([]interface{}{float64(5), true, []interface{}{float64(42)}, []interface{}{nil}, []interface{}{[]interface{}{"hello"}}, []interface{}{"https://ok.example", []interface{}{"not a uri"}}}).Draw(t, "oddEndpoint")
 	case 9:
 		s["serviceEndpoint"] = []interface{}{}
 	}
@@ -662,7 +683,7 @@ func classOf(c *Case) []string {
 }
 
 func TestAcceptedDeltas(t *testing.T) {
-	ev.Rule(chkRules, "rapid: deltas of 1-3 patches drawn from: valid patches; add-public-keys / add-services / replace with near-miss entries (id length 0/1/49/50/51/200 and illegal characters, duplicate ids, type x purposes mismatches, 0/1/2 key-material members and foreign members, JWK missing crv/kty/x, service type 0/1/30/31/90, endpoint as string / array with the bad URI at every index / object / null / number; entry lists with a stray non-object member at a drawn position, replace documents whose entries are not a list but a single object / string / number / null); remove patches with ill-typed id lists; json-patch lists over the six RFC 6902 operations (and unknown / ill-typed ops) with path / from / value present, absent, ill-typed, pointing at, under and next to /publicKey and /service, array indices -2..len+1 and '-', copy / move between differently spelled pointers to one location (index 0 / 00 / +0 / -0 / -1), null values, test without value; under a drawn set of enabled actions; oracle (i): ValidateDelta accepts => the independent rule predicate finds no violated rule; accept rate is reported; non-trivial = an accepted delta with a near-miss or json-patch patch")
+	ev.Rule(chkRules, "rapid: deltas of 1-3 patches drawn from: valid patches; add-public-keys / add-services / replace with near-miss entries (id length 0/1/49/50/51/200 and illegal characters, duplicate ids, type x purposes mismatches, purposes that are not strings, 0/1/2 key-material members and foreign members, JWK missing crv/kty/x, service type 0/1/30/31/90, endpoint as string / array with the bad URI at every index / object / null / number / boolean / nested list; entry lists with a stray non-object member at a drawn position, replace documents whose entries are not a list but a single object / string / number / null); remove patches with ill-typed id lists; json-patch lists over the six RFC 6902 operations (and unknown / ill-typed ops) with path / from / value present, absent, ill-typed, pointing at, under and next to /publicKey and /service, array indices -2..len+1 and '-', copy / move between differently spelled pointers to one location (index 0 / 00 / +0 / -0 / -1), null values, test without value; under a drawn set of enabled actions; oracle (i): ValidateDelta accepts => the independent rule predicate finds no violated rule; accept rate is reported; non-trivial = an accepted delta with a near-miss or json-patch patch")
 	ev.Rule(chkApply, "every accepted delta of the cases above is applied with the real composer to a reachable document (result of 0-4 valid patches on {}) or to one of 5 hand-made small documents (arrays, nested objects, null members, sections present / null): oracle (ii) a document or an error, never a panic (caught in-process), a hang (20 s watchdog) or a fatal crash (in-flight journal confirmed in a fresh process); oracle (iii) after an accepted json-patch-only delta the publicKey and service members are deep-equal to before; non-trivial = accepted delta containing a json-patch with an array index, a from, or a null / absent value")
 	ev.Rapid(t, chkRules, 3000, 40000, func(t *rapid.T) {
 		c := &Case{Enabled: wire.AllPatches}
